@@ -79,3 +79,26 @@ contract(DEV + ".sn", params={"self": "obj:" + DEV}, returns="self._sn", raises=
 contract(DEV + ".version", params={"self": "obj:" + DEV}, returns="self._version", raises={})
 contract(DEV + ".online", params={"self": "obj:" + DEV}, returns="self._online", raises={})
 contract(DEV + ".supported", params={"self": "obj:" + DEV}, returns="self._supported", raises={})
+
+# to_dict (the view C13 observes): every entry is the stored value under its documented name
+contract(DEV + ".to_dict", params={"self": "obj:" + DEV},
+         ensures={"identity": "result['ip'] == self._ip and result['port'] == self._port and result['id'] == self._id and result['type'] == self._type "
+                              "and result['name'] == self._name and result['sn'] == self._sn",
+                  "status": "result['online'] == self._online and result['supported'] == self._supported"},
+         raises={})
+
+contract(AC + ".to_dict", params={"self": "obj:" + AC}, globals=G, calls_inline=[DEV + ".to_dict"],
+         ensures={"state": "result['power'] == self._power_state and result['mode'] == self._operational_mode and result['fan_speed'] == self._fan_speed "
+                           "and result['swing_mode'] == self._swing_mode and result['target_temperature'] == self._target_temperature "
+                           "and result['indoor_temperature'] == self._indoor_temperature and result['outdoor_temperature'] == self._outdoor_temperature "
+                           "and result['target_humidity'] == self._target_humidity and result['indoor_humidity'] == self._indoor_humidity",
+                  "flags": "result['eco'] == self._eco and result['turbo'] == self._turbo and result['freeze_protection'] == self._freeze_protection "
+                           "and result['sleep'] == self._sleep and result['display_on'] == self._display_on and result['beep'] == self._beep_on "
+                           "and result['fahrenheit'] == self._fahrenheit_unit and result['filter_alert'] == self._filter_alert "
+                           "and result['follow_me'] == self._follow_me and result['purifier'] == self._purifier and result['aux_mode'] == self._aux_mode",
+                  "properties": "result['horizontal_swing_angle'] == self._horizontal_swing_angle and result['vertical_swing_angle'] == self._vertical_swing_angle "
+                                "and result['self_clean'] == self._self_clean_active and result['rate_select'] == self._rate_select",
+                  "energy": "result['total_energy_usage'] == self._total_energy_usage and result['current_energy_usage'] == self._current_energy_usage "
+                            "and result['real_time_power_usage'] == self._real_time_power_usage",
+                  "identity_and_status": "result['ip'] == self._ip and result['online'] == self._online and result['supported'] == self._supported"},
+         raises={})
